@@ -198,7 +198,8 @@ func (w *world) candidates(r *coqfmt.Rng, p policy, allowNew bool) []cand {
 				add(label{K: "act", Tid: tid}, p.act)
 			}
 		}
-		if !t.cancelled {
+		if !t.cancelled && !(t.pc == "offer" && t.op.InPlace && w.monAlive()) {
+			// (an in-place report has already changed the buffer the monitor holds: it is left to be received)
 			add(label{K: "cancel", Tid: tid}, p.cancel)
 		}
 	}
@@ -228,7 +229,9 @@ func (w *world) candidates(r *coqfmt.Rng, p policy, allowNew bool) []cand {
 		case w.isBlank(src) && (!w.hasWA(src) || w.blankBusy(src)):
 			// the Blank's Watcher has not been given the WatchArgs (yet)
 		default:
-			start(&opT{K: "offer", Msg: &msgT{K: "update", Src: src, V: w.genValue(r, p), Blocking: r.Intn(10) < p.blocking}}, p.report)
+			v := w.genValue(r, p)
+			// a third of the reports reuse the source's buffer: mutated in place, same pointer reported again
+			start(&opT{K: "offer", InPlace: !v.Bad && r.Chance(1, 3), Msg: &msgT{K: "update", Src: src, V: v, Blocking: r.Intn(10) < p.blocking}}, p.report)
 			start(&opT{K: "offer", Msg: &msgT{K: "err", Src: src}}, p.reportErr)
 			start(&opT{K: "offer", Msg: &msgT{K: "done", Src: src}}, p.done)
 		}
@@ -625,6 +628,25 @@ var scripts = map[string]script{
 			w.drainCb() // both handles hear about every further version
 		}
 	}},
+	// C05: a source that keeps one buffer, mutates it in place and reports the same pointer again -
+	// first the very pointer it returned from Value()
+	"same-buffer": {setupT{Def: [3]int{1, 5, 0}, Watching: []bool{true, true}, Inits: []svJSON{{C: iptr(1)}, {}}}, func(w *world) {
+		inplace := func(src int, v svJSON, blocking bool) {
+			tid := w.startOp(&opT{K: "offer", InPlace: true, Msg: &msgT{K: "update", Src: src, V: v, Blocking: blocking}})
+			w.do(label{K: "recv", Src: "offer", Tid: tid})
+			w.drainMon()
+			w.finish(tid)
+		}
+		inplace(0, svJSON{C: iptr(2)}, true)
+		inplace(0, svJSON{A: iptr(2), NE: true}, false)
+		inplace(1, svJSON{B: iptr(7)}, true)
+		w.report(0, svJSON{C: iptr(4)}, true) // a fresh value in between
+		w.drainMon()
+		inplace(0, svJSON{C: iptr(5), PE: false}, true)
+		inplace(0, svJSON{C: iptr(6)}, false)
+		inplace(1, svJSON{}, true)
+		w.drainCb()
+	}},
 	// C04/C07: rejected updates in all flavours, then recovery
 	"rejections": {setupT{Def: [3]int{1, 5, 0}, Watching: []bool{true, true}, Inits: []svJSON{{}, {}}}, func(w *world) {
 		t := w.report(0, svJSON{A: iptr(9)}, true) // verify error
@@ -752,7 +774,7 @@ func init() {
 
 var scriptOrder = []string{"late-register", "double-unregister", "srcerr-delay-nosuppress", "srcerr-after-enable-suppress",
 	"enable-nomon", "enable-nomon-invalid", "race-register-after-store", "race-catchup", "abandoned-caller",
-	"blocked-callback", "overflow", "overflow-then-register", "rejections", "enable-retry", "blank-setsource"}
+	"blocked-callback", "overflow", "overflow-then-register", "same-buffer", "rejections", "enable-retry", "blank-setsource"}
 
 func init() {
 	for _, n := range scriptOrder {
